@@ -16,4 +16,134 @@ theorem confs_rt (n : Nat) (es : Option (List Rat)) (w r : Nat) :
   rw [hid, List.take_range]
   congr 1; omega
 
+/-! ## rounding to four decimals -/
+
+/-- a multiple of 1e-4 is its own rounding -/
+theorem round4_of_int (k : Int) : round4 ((k : Rat) / 10000) = (k : Rat) / 10000 := by
+  have hs : (k : Rat) / 10000 * 10000 = (k : Rat) := by grind
+  unfold round4
+  simp only [hs, Rat.floor_intCast, Rat.sub_self]
+  rw [if_pos (by decide +kernel)]
+
+/-- every rounded value is a multiple of 1e-4 -/
+theorem round4_is_multiple (q : Rat) : ∃ k : Int, round4 q = (k : Rat) / 10000 := by
+  unfold round4
+  exact ⟨_, rfl⟩
+
+/-- writing an energy that was read back writes the same text: rounding is idempotent -/
+theorem round4_idem (q : Rat) : round4 (round4 q) = round4 q := by
+  obtain ⟨k, hk⟩ := round4_is_multiple q
+  rw [hk, round4_of_int]
+
+/-- the rounded energy is within half a unit in the fourth decimal of the energy -/
+theorem round4_close (q : Rat) : q - round4 q ≤ 1 / 20000 ∧ round4 q - q ≤ 1 / 20000 := by
+  have h1 := Rat.floor_le (q * 10000)
+  have h2 := Rat.lt_floor_add_one (q * 10000)
+  rw [Rat.intCast_add] at h2
+  unfold round4
+  simp only
+  generalize (q * 10000).floor = f at *
+  split
+  · rename_i h
+    constructor <;> grind
+  · split
+    · rename_i h h'
+      rw [Rat.intCast_add]
+      constructor <;> grind
+    · rename_i h h'
+      split
+      · constructor <;> grind
+      · rw [Rat.intCast_add]
+        constructor <;> grind
+
+example : round4 (12345 / 100000) = 617 / 5000 ∧ round4 (12355 / 100000) = 309 / 2500 := by decide +kernel
+
+/-- stored energies are already rounded: storing twice changes nothing -/
+theorem storeEnergies_idem (es : List Rat) : storeEnergies (storeEnergies es) = storeEnergies es := by
+  unfold storeEnergies
+  rw [List.map_map]
+  apply List.map_congr_left
+  intro a _
+  exact round4_idem a
+
+/-! ## energies through a write / read -/
+
+theorem filterMap_range_getElem? (f : Rat → Rat) (es : List Rat) (n : Nat) :
+    (List.range n).filterMap (fun i => (es[i]?).map f) = (es.take n).map f := by
+  induction n with
+  | zero => simp
+  | succ n ih =>
+    rw [List.range_succ, List.filterMap_append, ih, List.take_add_one, List.map_append]
+    congr 1
+    cases h : es[n]? <;> simp [h]
+
+/-- number of records a write limit leaves -/
+def wcount (n : Nat) (wlim : Option Int) : Nat :=
+  match wlim with
+  | none => n
+  | some l => if l = -1 then n else min n l.toNat
+
+/-- the energies read back are the rounded energies of the conformers that were written and read,
+in conformer order, for every combination of limits -/
+theorem energies_rt_limits (n : Nat) (es : List Rat) (wlim : Option Int) (rlim : Option Nat) :
+    (readRecords (writeRecords n (some es) wlim) rlim).2 =
+      (es.take (match rlim with | none => wcount n wlim | some r => min r (wcount n wlim))).map round4 := by
+  unfold readRecords writeRecords
+  simp only [Option.bind_some]
+  change (match rlim with
+      | none => (List.range (wcount n wlim)).map _
+      | some l => ((List.range (wcount n wlim)).map _).take l).filterMap Prod.snd = _
+  cases rlim with
+  | none =>
+    simp only [List.filterMap_map]
+    exact filterMap_range_getElem? round4 es _
+  | some r =>
+    simp only [← List.map_take, List.take_range, List.filterMap_map]
+    exact filterMap_range_getElem? round4 es _
+
+/-- without limits: the first `n` energies, rounded -/
+theorem energies_rt (n : Nat) (es : List Rat) :
+    (readRecords (writeRecords n (some es) none) none).2 = (es.take n).map round4 :=
+  energies_rt_limits n es none none
+
+/-- one energy per conformer: exactly the stored (rounded) energies come back -/
+theorem energies_rt_full (es : List Rat) :
+    (readRecords (writeRecords es.length (some es) none) none).2 = storeEnergies es := by
+  rw [energies_rt, List.take_length]
+  rfl
+
+/-- ... and as many energies as conformers -/
+theorem energies_rt_aligned (n : Nat) (es : List Rat) (h : n ≤ es.length) :
+    (readRecords (writeRecords n (some es) none) none).2.length =
+      (readRecords (writeRecords n (some es) none) none).1.length := by
+  rw [energies_rt]
+  unfold readRecords writeRecords
+  simp
+  omega
+
+/-- without energies on the molecule none are read -/
+theorem energies_none (n : Nat) (wlim : Option Int) (rlim : Option Nat) :
+    (readRecords (writeRecords n none wlim) rlim).2 = [] := by
+  unfold readRecords writeRecords
+  cases rlim with
+  | none => simp [List.filterMap_map]
+  | some r => simp [← List.map_take, List.filterMap_map]
+
+/-- a write limit of `-1` is no limit -/
+theorem write_limit_neg_one (n : Nat) (es : Option (List Rat)) :
+    writeRecords n es (some (-1)) = writeRecords n es none := by
+  simp [writeRecords]
+
+/-- conformers through a write / read without limits: all, in order -/
+theorem confs_rt_nolimit (n : Nat) (es : Option (List Rat)) :
+    (readRecords (writeRecords n es none) none).1 = List.range n := by
+  unfold readRecords writeRecords
+  simp only [List.map_map]
+  induction List.range n with
+  | nil => rfl
+  | cons a t ih => simp only [List.map_cons, Function.comp_apply, ih]
+
+example : (readRecords (writeRecords 2 (some [1/3, 2, 5]) none) none).2 = [3333/10000, 2] := by
+  rw [energies_rt]; decide +kernel
+
 end E3fpVerif.Props.C19
